@@ -185,7 +185,7 @@ func runC11(c *Ctx) {
 	mineResultFlow(c, "C11", fn, search, "call<(hash.Hash).Sum>(obj(call<(crypto.Hash).New>(load(global<repo/pkg/pow.Hash>)), call<(hash.Hash).Write>(self, p2)), nil)")
 	sb := ana.NewBuilder(c.P, search)
 	for _, ce := range sb.CondEdges() {
-		if bd, ok := ana.Match("bin<<>(call<*>($l, $h, p3), "+WS+")", ce.Lit); ok && ce.Taken {
+		if bd, ok := ana.Match("bin<<>(call<*>($l, $h, p3), "+WS+")", ce.Lit); ok {
 			_ = bd
 			lane = calleeOf(ce.Lit.Arg(0))
 		}
